@@ -278,7 +278,7 @@ pub fn run(args: &Args) -> Report {
         }
     }
     let plan = Plan {
-        ks: if thorough { vec![0, 1, 2, 3] } else { vec![0, 1, 2] },
+        ks: if thorough { vec![0, 1, 2, 3, 4] } else { vec![0, 1, 2, 3] },
         env: 0,
         fault: 0,
         total_wall: Duration::from_secs(if thorough { 1200 } else { 30 }),
